@@ -38,5 +38,5 @@ ValQ(m, xs, q) ==        \* products are staged so that every intermediate stays
                             (* cov = (mm * sum(u w) - sum u sum w) / (mm (mm - 1)) *)
                             num == Abs(mm * SumSeq([i \in 1..mm |-> u[i] * w[i]]) - SumSeq(u) * SumSeq(w))
                             den == mm * (mm - 1) IN
-                        ISqrt(((num * q) \div den) * q)
+                        IF num < 30000 THEN ISqrt((num * q * q) \div den) ELSE ISqrt(((num * q) \div den) * q)
 =============================================================================
